@@ -19,13 +19,27 @@ def pathLen : List S → Float
 def params : Params S Float :=
   { ltD := fun a b => decide (a < b), inf := 1.0 / 0.0, zero := 0.0, pathLen := pathLen }
 
-abbrev St := M S Float (Tree S)
+abbrev Mach := M S Float (Tree S)
 
-def core : CoreSpec S Float (Draw S Float) (Tree S) := rrtCore
+/-- which core the script runs: the geometric RRT-like core or control RRT with intermediate states -/
+structure St where
+  ctl : Bool
+  /-- propagation step size (control core): `PathControl::length()` is the sum of the control durations -/
+  dt : Float
+  m : Mach
+
+/-- control core: every non-root motion has `steps = 1`, so each path segment lasts one propagation step;
+`std::accumulate(durations, 0.0)` -/
+def paramsCtl (dt : Float) : Params S Float :=
+  { params with pathLen := fun p => (p.drop 1).foldl (fun acc _ => acc + dt) 0.0 }
 
 def init (ts : List String) : Option St :=
   match ts with
-  | ["proto", "core=rrt"] => some (M.init core)
+  | ["proto", "core=rrt"] => some ⟨false, 0.0, M.init (rrtCore : CoreSpec S Float (Draw S Float) (Tree S))⟩
+  | ["proto", "core=crrt", dt] =>
+    match parseFloatBits? dt with
+    | some dt => some ⟨true, dt, M.init (crrtCore : CoreSpec S Float (CDraw S Float) (Tree S))⟩
+    | none => none
   | _ => none
 
 def showLog (evs : List Ev) : String :=
@@ -88,11 +102,52 @@ def pDraws? : Nat → List String → Option (List (Draw S Float) × List String
     let (ds, r') ← pDraws? n r
     pure (d :: ds, r')
 
-def newEvents (before after : St) : List Ev := after.log.drop before.log.length
+/-- `<sat> <distbits> <dim> <bits>*dim` -/
+def pPState? (ts : List String) : Option ((S × Bool × Float) × List String) :=
+  match ts with
+  | sat :: dist :: rest =>
+    match parseFloatBits? dist, takeCounted rest with
+    | some dist, some (xs, rest') =>
+      match xs.mapM parseFloatBits? with
+      | some st => if sat = "0" || sat = "1" then some ((st, sat = "1", dist), rest') else none
+      | none => none
+    | _, _ => none
+  | _ => none
 
-def step (m : St) (ts : List String) : St × String :=
-  let fin (op : Op S (Draw S Float)) (name : String) (extra : String) : St × String :=
-    let m' := OmplModel.PlannerProto.step core params m op
+def pPStates? : Nat → List String → Option (List (S × Bool × Float) × List String)
+  | 0, ts => some ([], ts)
+  | n + 1, ts => do
+    let (d, r) ← pPState? ts
+    let (ds, r') ← pPStates? n r
+    pure (d :: ds, r')
+
+/-- `<near> <ok> <tail> <nps> (<sat> <distbits> <dim> <bits>*dim)*nps` -/
+def pCDraw? (ts : List String) : Option (CDraw S Float × List String) :=
+  match ts with
+  | near :: ok :: tail :: nps :: rest =>
+    match parseNat? near, parseNat? nps with
+    | some near, some nps =>
+      if (ok = "0" || ok = "1") && (tail = "0" || tail = "1") then
+        match pPStates? nps rest with
+        | some (ps, rest') => some (⟨near, ps, tail = "1", ok = "1"⟩, rest')
+        | none => none
+      else none
+    | _, _ => none
+  | _ => none
+
+def pCDraws? : Nat → List String → Option (List (CDraw S Float) × List String)
+  | 0, ts => some ([], ts)
+  | n + 1, ts => do
+    let (d, r) ← pCDraw? ts
+    let (ds, r') ← pCDraws? n r
+    pure (d :: ds, r')
+
+def newEvents (before after : Mach) : List Ev := after.log.drop before.log.length
+
+def stepG {D : Type} (cs : CoreSpec S Float D (Tree S)) (params : Params S Float) (pDs : Nat → List String → Option (List D × List String))
+    (m : Mach) (ts : List String) : Mach × String :=
+  let fin (op : Op S D) (name : String) (extra : String) : Mach × String :=
+    let m' := OmplModel.PlannerProto.step cs params m op
     (m', name ++ extra ++ " log=" ++ showLog (newEvents m m'))
   match ts with
   | "setpd" :: id :: n :: rest =>
@@ -118,14 +173,14 @@ def step (m : St) (ts : List String) : St × String :=
   | ["clearQuery"] => fin .clearQuery "clearQuery" " tree=0"
   | ["destroy"] => fin .destroy "destroy" ""
   | ["getpd"] =>
-    let (v, g, dangling) := plannerData core m
+    let (v, g, dangling) := plannerData cs m
     (m, s!"getpd v={v} goals={b01 g}" ++ (if dangling then " dangling-lastGoalMotion" else ""))
   | "solve" :: k :: n :: rest =>
     match parseNat? k, parseNat? n with
     | some k, some n =>
-      match pDraws? n rest with
+      match pDs n rest with
       | some (ds, []) =>
-        let r := solve core params m k ds
+        let r := solve cs params m k ds
         let m' := r.m
         match m'.pdef with
         | none => (m', "solve st=" ++ statusName r.status)
@@ -136,9 +191,17 @@ def step (m : St) (ts : List String) : St × String :=
           let path := match pd.sols with
             | [] => "-"
             | s :: _ => joinSp (toString s.path.length :: s.path.map showState)
-          (m', s!"solve st={statusName r.status} nsol={pd.sols.length} added={r.added.length} exact={b01 pd.hasExactSolution} approx={b01 pd.hasApproximateSolution} top={top} evals={r.evals} tree={core.size m'.core} path={path} log={showLog r.evs}")
+          (m', s!"solve st={statusName r.status} nsol={pd.sols.length} added={r.added.length} exact={b01 pd.hasExactSolution} approx={b01 pd.hasApproximateSolution} top={top} evals={r.evals} tree={cs.size m'.core} path={path} log={showLog r.evs}")
       | _ => (m, "bad-op")
     | _, _ => (m, "bad-op")
   | _ => (m, "bad-op")
+
+def step (st : St) (ts : List String) : St × String :=
+  if st.ctl then
+    let (m', out) := stepG (crrtCore : CoreSpec S Float (CDraw S Float) (Tree S)) (paramsCtl st.dt) pCDraws? st.m ts
+    ({ st with m := m' }, out)
+  else
+    let (m', out) := stepG (rrtCore : CoreSpec S Float (Draw S Float) (Tree S)) params pDraws? st.m ts
+    ({ st with m := m' }, out)
 
 end OmplModel.Driver.PlannerProtoDrv
